@@ -108,13 +108,74 @@ def run(ctx, rep):
             probe.close()
     finally:
         W.close()
+    # ---- sessions of 1..3 long-lived handles of ONE process, serialised (the property's "all interleavings of k sessions over
+    # 2..3 handles"): a handle that sat idle while another handle's session wrote, a session that ends with a failing flush and
+    # the NEXT session of the same handle, pickled handle copies.  Same histories and model (Model/Backend.v) as C02's
+    # collection level, judged here as "no record written in a completed session is lost or altered; a failing session does not
+    # spoil the next one".
+    import ukv_common as U
+    hcases, hmeta = [], []
+    hpath = os.path.join(ctx.sub("c04hist"), "c.ukv")
+    for n in range(1500 if ctx.thorough else 220):
+        cfg = [(ctx.rng.choice(U.BUFS), ctx.rng.random() < 0.15) for _ in range(ctx.rng.randint(2, 3))]
+        if all(ro for _, ro in cfg):
+            cfg[0] = (cfg[0][0], False)
+        h = U.gen_chistory(ctx.rng, cfg)
+        if n % 3 == 0:
+            h, cfg = U.directed_chistory(ctx.rng)
+        elif n % 3 == 1:
+            h, cfg = idle_handle_history(ctx.rng)
+        d = U.cdrive(hpath, h, cfg)
+        hcases.append(U.bcase_coq(d, cfg)); hmeta.append((h, cfg))
+        rep.case(key="hist:" + "; ".join(d["ops"]))
+        rep.count("session-history:" + ("random", "doomed-batch", "idle-handle")[2 if n % 3 == 1 else 1 if n % 3 == 0 else 0])
+        for sig, text in d["oracle"]:
+            rep.violate(sig.replace("C02:", "C04:sessions:"), text, {"kind": "sessions", "cfg": cfg, "ops": [_ser(o) for o in h]})
+    hbad = vlib.run_shards(ctx, rep, "c04hist", U.HEADER_B, "check_bcase", hcases, shard=120, case_type="bcase")
+    if hbad is None:
+        vlib.broken_obligation(rep, "corr_c04hist", "a correspondence shard did not compile: " + str(rep.extra.get("shard_errors"))[-1500:], bool(rep.violations))
+    elif hbad and not rep.violations:
+        h, cfg = hmeta[hbad[0]]
+        rep.violate("broken:corr_c04hist", f"backend model and implementation disagree on {len(hbad)} session histories (first: cfg={cfg} {[_ser(o) for o in h][:12]}) "
+                    "but the oracle finds no property violation on them", {"kind": "sessions", "cfg": cfg, "ops": [_ser(o) for o in h], "obligation": "corr_c04hist"}, no_input=True)
     if not ok:
         vlib.broken_obligation(rep, "Props/C04.v", (f"AST extractor refused: {refusal}\n" if refusal else "") + f"{where}\n{out[-1500:]}",
                                bool(rep.violations))
 
 
+def _ser(o):
+    import ukv_common as U
+    return [x.hex() if isinstance(x, bytes) else ([x.seed, x.n] if isinstance(x, U.Val) else x) for x in o]
+
+
+def idle_handle_history(rng):
+    """Handle A runs a session without puts of its own (its cached table and end-of-file are exactly the file's), handle B's
+    session appends, then A comes back as a reader and as a writer; also with a doomed put in B's or A's session first."""
+    import ukv_common as U
+    V = lambda: U.Val(rng.randrange(256), rng.choice([0, 1, 3, 17, 300]))
+    cfg = [(rng.choice(U.BUFS), False), (rng.choice(U.BUFS), False)]
+    ops = []
+    if rng.random() < 0.7:
+        ops += [("beginw", 0), ("put", 0, "a", V())] + ([("put", 0, "K" * 256, V())] if rng.random() < 0.4 else []) + [("endw", 0)]
+    ops += [(rng.choice(["beginr", "beginw"]), 0), ("keys", 0)]
+    ops += [("endw" if ops[-2][0] == "beginw" else "endr", 0)]
+    ops += [("beginw", 1)] + [("put", 1, k, V()) for k in rng.sample(["b", "c", "ab", "d"], rng.randint(1, 3))] + [("endw", 1)]
+    back = rng.choice(["r", "w", "rw"])
+    if "r" in back:
+        ops += [("beginr", 0), ("keys", 0), ("get", 0, "b"), ("get", 0, "c"), ("len", 0, 0), ("endr", 0)]
+    if "w" in back:
+        ops += [("beginw", 0), ("keys", 0), ("put", 0, "e", V()), ("get", 0, "e"), ("endw", 0)]
+    ops += [("beginr", 1), ("keys", 1), ("items", 1), ("endr", 1)]
+    return ops, cfg
+
+
 def replay(ctx, data):
     out = []
+    if data.get("kind") == "sessions":
+        import ukv_common as U, c02
+        d = U.cdrive(os.path.join(ctx.sub("c04hist"), "c.ukv"), [c02._deser(o, True) for o in data["ops"]], [tuple(x) for x in data["cfg"]])
+        print("ops:", d["ops"]); print("results:", d["results"])
+        return [vlib.Violation(s.replace("C02:", "C04:sessions:"), t) for s, t in d["oracle"]]
     if data.get("kind") == "vector":
         probe = c04_skel.Probe(ctx)
         try:
